@@ -1,5 +1,6 @@
 (* C03 — property theorems only. *)
-Require Import V.Lib V.GoPath V.GoPathProofs V.C03_Model V.C03_Proofs.
+Require Import V.Lib V.GoPath V.GoPathProofs V.Gen_C09 V.C03_Model V.C03_Proofs.
+Require Import Coq.Sorting.Permutation.
 Open Scope N_scope.
 
 (* The matcher and the resolver normalise differently, yet: whenever the canonical name of the
@@ -59,3 +60,321 @@ Theorem C03_internal_blocks_covers_resolver : forall cs p paths prefix,
   path_matches cs (resolved p) prefix = true -> internal_blocks cs p paths = true.
 Proof. exact internal_blocks_covers_resolver. Qed.
 Print Assumptions C03_internal_blocks_covers_resolver.
+
+(* ====================================================================================
+   (2) several basicauth rules
+   ==================================================================================== *)
+
+(* the nested loops (resources, exclusions with `continue ruleLoop`, credentials) compute, for EVERY
+   rule list: protected = some rule protects the path; authenticated = some rule that protects the
+   path is satisfied by the presented credentials *)
+Theorem C03_rules_fold_spec : forall cs path rules,
+  fold_left (rule_step cs path) rules (false, false) =
+  (existsb (protects cs path) rules, existsb (fun ru => protects cs path ru && r_creds_ok ru) rules).
+Proof. exact rules_fold_spec. Qed.
+Print Assumptions C03_rules_fold_spec.
+
+(* ANY-rule semantics: a request is let through iff it is OPTIONS, or no rule protects its path
+   (resource matches, none of that rule's exclusions does), or its credentials satisfy AT LEAST ONE
+   of the rules that protect the path *)
+Theorem C03_decide_pass_iff : forall cs opt path rules,
+  basicauth_decide cs opt path rules = Pass <->
+  opt = true \/ (forall ru, In ru rules -> protects cs path ru = false) \/
+  (exists ru, In ru rules /\ protects cs path ru = true /\ r_creds_ok ru = true).
+Proof. exact decide_pass_iff. Qed.
+Print Assumptions C03_decide_pass_iff.
+
+(* "let through only if EVERY protecting rule is satisfied" is not what the code does *)
+Theorem C03_every_rule_refuted :
+  exists cs path rules ru,
+    In ru rules /\ protects cs path ru = true /\ r_creds_ok ru = false /\
+    basicauth_decide cs false path rules = Pass.
+Proof. exact every_rule_refuted. Qed.
+Print Assumptions C03_every_rule_refuted.
+
+Theorem C03_every_rule_partial : forall cs opt path rules,
+  (forall ru, In ru rules -> protects cs path ru = true -> r_creds_ok ru = true) ->
+  basicauth_decide cs opt path rules = Pass.
+Proof. exact every_rule_partial. Qed.
+Print Assumptions C03_every_rule_partial.
+
+Example C03_every_rule_partial_nonvacuous :
+  let ru := {| r_resources := [bs "/secret"%string]; r_exclude := []; r_creds_ok := true |} in
+  protects false (bs "/secret/f"%string) ru = true /\
+  (forall r0, In r0 [ru] -> protects false (bs "/secret/f"%string) r0 = true -> r_creds_ok r0 = true).
+Proof. cbv zeta. split; [vm_compute; reflexivity|]. intros r0 [<-|[]] _. reflexivity. Qed.
+
+(* a rule that does not protect the path is inert wherever it stands in the list; in particular a
+   rule one of whose exclusions matches: its exclusion does not leak to the rules after (or before) it *)
+Theorem C03_unprotecting_rule_inert : forall cs opt path l1 ru l2,
+  protects cs path ru = false ->
+  basicauth_decide cs opt path (l1 ++ ru :: l2) = basicauth_decide cs opt path (l1 ++ l2).
+Proof. exact unprotecting_rule_inert. Qed.
+Print Assumptions C03_unprotecting_rule_inert.
+
+Theorem C03_excluded_rule_inert : forall cs opt path l1 ru l2,
+  existsb (path_matches cs path) (r_exclude ru) = true ->
+  basicauth_decide cs opt path (l1 ++ ru :: l2) = basicauth_decide cs opt path (l1 ++ l2).
+Proof. exact excluded_rule_inert. Qed.
+Print Assumptions C03_excluded_rule_inert.
+
+Example C03_excluded_rule_inert_nonvacuous :
+  let r1 := {| r_resources := [bs "/docs"%string]; r_exclude := [bs "/docs/public"%string]; r_creds_ok := false |} in
+  let r2 := {| r_resources := [bs "/docs/public/drafts"%string]; r_exclude := []; r_creds_ok := false |} in
+  let p := bs "/docs/public/drafts/plan.txt"%string in
+  existsb (path_matches false p) (r_exclude r1) = true /\
+  basicauth_decide false false p ([] ++ r1 :: [r2]) = Deny401.
+Proof. vm_compute. auto. Qed.
+
+Theorem C03_decide_permutation : forall cs opt path rules rules',
+  Permutation rules rules' -> basicauth_decide cs opt path rules = basicauth_decide cs opt path rules'.
+Proof. exact decide_permutation. Qed.
+Print Assumptions C03_decide_permutation.
+
+(* ====================================================================================
+   (3) internal and X-Accel-Redirect
+   ==================================================================================== *)
+
+(* an internal location is answered 404 and the inner chain is not run — whatever request headers
+   the client sent (q is arbitrary, its q_xaccel included) and whatever the response header map held *)
+Theorem C03_internal_blocked_404 : forall cs ps inner q w,
+  internal_blocks cs (q_path q) ps = true ->
+  internal_serve cs ps inner q w = deny 404 w.
+Proof. exact internal_blocked_404. Qed.
+Print Assumptions C03_internal_blocked_404.
+
+(* the client's X-Accel-Redirect REQUEST header is not an input of the middleware: if the inner
+   handlers do not look at it, the outcome is the same with and without it *)
+Theorem C03_internal_request_header_inert : forall cs ps inner q w x,
+  (forall q w, inner (with_xaccel q x) w = inner q w) ->
+  internal_serve cs ps inner (with_xaccel q x) w = internal_serve cs ps inner q w.
+Proof. exact internal_request_header_inert. Qed.
+Print Assumptions C03_internal_request_header_inert.
+
+(* no inner handler sets the RESPONSE header: exactly one run of the inner chain with the request's
+   own path, none for an internal location — for every client-supplied request header x *)
+Theorem C03_internal_no_response_header : forall cs ps h q x,
+  (forall q w, h q w = w) ->
+  internal_serve cs ps (touch h) (with_xaccel q x) [] =
+  if internal_blocks cs (q_path q) ps then deny 404 [] else touch h (with_xaccel q x) [].
+Proof. exact internal_no_response_header. Qed.
+Print Assumptions C03_internal_no_response_header.
+
+(* every path the inner chain is run with is the request's own (not an internal location) or was
+   named by an X-Accel-Redirect RESPONSE header value an inner handler left in the header map *)
+Theorem C03_internal_touched_spec : forall cs ps h q w t,
+  In t (o_touched (internal_serve cs ps (touch h) q w)) ->
+  internal_blocks cs (q_path q) ps = false /\ (t = q_path q \/ named_by h t).
+Proof. exact internal_touched_spec. Qed.
+Print Assumptions C03_internal_touched_spec.
+
+(* and a response header does unlock, deliberately: the named path is served without being tested
+   against the internal locations *)
+Theorem C03_internal_unlock_by_response_header : forall cs ps h q w t,
+  internal_blocks cs (q_path q) ps = false -> t <> [] ->
+  h q w = t -> h (set_path q t) [] = [] ->
+  internal_serve cs ps (touch h) q w = {| o_status := 200; o_touched := [q_path q; t]; o_hdr := [] |}.
+Proof. exact internal_unlock_by_response_header. Qed.
+Print Assumptions C03_internal_unlock_by_response_header.
+
+Example C03_internal_unlock_nonvacuous :
+  let h := script_h [(bs "/api/x"%string, bs "/int/h.txt"%string)] in
+  let q := {| q_path := bs "/api/x"%string; q_options := false; q_xaccel := [] |} in
+  internal_blocks false (q_path q) [bs "/int"%string] = false /\
+  internal_blocks false (bs "/int/h.txt"%string) [bs "/int"%string] = true /\
+  h q [] = bs "/int/h.txt"%string /\ h (set_path q (bs "/int/h.txt"%string)) [] = [].
+Proof. vm_compute. auto. Qed.
+
+Theorem C03_internal_bounded : forall cs ps h q w,
+  (length (o_touched (internal_serve cs ps (touch h) q w)) <= 11)%nat.
+Proof. exact internal_bounded. Qed.
+Print Assumptions C03_internal_bounded.
+
+(* ====================================================================================
+   (1) the chain
+   ==================================================================================== *)
+
+(* order facts computed by the kernel on the directive list regenerated from plugin.go: every
+   path-writing directive (tryfiles, rewrite, ext) stands before basicauth, basicauth before
+   internal, internal before every content handler; all of them are in the list *)
+Theorem C03_chain_order_facts :
+  sorted_from 0 (map role_of gen_directives) = true /\
+  forallb (fun n => memb n gen_directives)
+          (writer_names ++ [bs "basicauth"%string; bs "internal"%string] ++ content_names) = true.
+Proof. exact (conj gen_order_facts gen_roles_present). Qed.
+Print Assumptions C03_chain_order_facts.
+
+(* For EVERY site (any subset of directives, any path function for tryfiles/rewrite/ext, any rules,
+   any internal locations, any content handlers) compiled in the order of plugin.go: the request is
+   answered as follows — the rewriters produce the final path; basicauth decides on THAT path;
+   internal tests THAT path; the content handlers are first run with THAT path.  Nothing ordered
+   between the protection directives and the content handlers rewrites the path (the only later
+   change is internal's own X-Accel-Redirect loop, theorems above). *)
+Theorem C03_auth_sees_final_path : forall (s : site) cs leaf q w,
+  wf_site s ->
+  run cs (stack s gen_directives) leaf q w = chain_nf cs (stack s gen_directives) leaf q w.
+Proof. exact auth_sees_final_path. Qed.
+Print Assumptions C03_auth_sees_final_path.
+
+Example C03_auth_sees_final_path_nonvacuous :
+  wf_site (site_of example_site) /\
+  length (chain_of (site_of example_site)) = 6%nat /\
+  run false (chain_of (site_of example_site)) (fun _ w => w) (noauth_q (bs "/alias"%string)) [] = deny 401 [] /\
+  o_touched (run false (chain_of (site_of example_site)) (fun _ w => w) (noauth_q (bs "/pub/a.txt"%string)) [])
+    = [bs "/pub/a.txt"%string].
+Proof. split; [apply site_of_wf; vm_compute; reflexivity|]. vm_compute. auto. Qed.
+
+(* the order is what carries it: with basicauth outside a rewriter the tested path is not the served one *)
+Theorem C03_unordered_chain_refuted :
+  exists cs stk leaf q w, run cs stk leaf q w <> chain_nf cs stk leaf q w /\ o_status (run cs stk leaf q w) = 200.
+Proof. exact unordered_chain_refuted. Qed.
+Print Assumptions C03_unordered_chain_refuted.
+
+(* COVER: what the content handlers read for path p (reads: the file itself, a precompressed
+   sibling, an index page, its sibling, the listing, any descendant in an archive, the path handed to
+   a backend) lies in scope b  ==>  Path.Matches p b, provided b does not reach below the part of the
+   name that p itself spells out. Every rooted spelling, both case modes. *)
+Theorem C03_reads_covered : forall cs idx exts p k f b,
+  rooted p -> reads idx exts p k f ->
+  under cs f b = true -> scope_within p k b = true -> path_matches cs p b = true.
+Proof. exact reads_covered. Qed.
+Print Assumptions C03_reads_covered.
+
+(* exclusions go the other way: one that matches the request contains everything read for it *)
+Theorem C03_exclusion_covers_reads : forall cs idx exts p k f e,
+  rooted p -> reads idx exts p k f ->
+  path_matches cs p e = true -> matcher_form e <> [SLASH; SLASH] -> under cs f e = true.
+Proof. exact exclusion_covers_reads. Qed.
+Print Assumptions C03_exclusion_covers_reads.
+
+(* NO DISCLOSURE THROUGH THE CHAIN.  Full statement:
+
+     forall cs idx exts s leaf q w k f ru res,
+       wf_site s -> protected_read cs idx exts (chain_of s) q k f ru res ->
+       run cs (chain_of s) leaf q w = deny 401 w
+
+   (protected_read: q rooted, rewriters keep paths rooted, not OPTIONS, no rule's credentials valid,
+   the content handlers read f of kind k for the final path, f under resource res of rule ru and under
+   none of ru's exclusions).  It is FALSE — the three _refuted theorems below are the recorded
+   findings F-C03-1 (archive), F-C03-2 (index file scope) and its sibling-file variant F-C03-4 — and
+   TRUE as soon as the scope does not reach below what the request path spells out (_partial),
+   which is no restriction at all for files, listings and backends (_direct). *)
+Theorem C03_no_disclosure_chain_partial : forall cs idx exts (s : site) leaf q w k f ru res,
+  wf_site s ->
+  protected_read cs idx exts (chain_of s) q k f ru res ->
+  scope_within (final_path (chain_of s) (q_path q)) k res = true ->
+  run cs (chain_of s) leaf q w = deny 401 w.
+Proof. exact no_disclosure_chain_partial. Qed.
+Print Assumptions C03_no_disclosure_chain_partial.
+
+Theorem C03_no_disclosure_chain_direct : forall cs idx exts (s : site) leaf q w k f ru res,
+  wf_site s -> (k = KFile \/ k = KListing \/ k = KBackend) ->
+  protected_read cs idx exts (chain_of s) q k f ru res ->
+  run cs (chain_of s) leaf q w = deny 401 w.
+Proof. exact no_disclosure_chain_direct. Qed.
+Print Assumptions C03_no_disclosure_chain_direct.
+
+Example C03_no_disclosure_chain_nonvacuous :
+  let s := site_of example_site in
+  let ru := {| r_resources := [bs "/secret"%string]; r_exclude := [bs "/secret/pub"%string]; r_creds_ok := false |} in
+  wf_site s /\
+  protected_read false [bs "index.html"%string] [bs ".gz"%string] (chain_of s)
+                 (noauth_q (bs "/alias"%string)) KSibling (bs "/secret/f.txt.gz"%string) ru (bs "/secret"%string) /\
+  scope_within (final_path (chain_of s) (bs "/alias"%string)) KSibling (bs "/secret"%string) = true.
+Proof.
+  cbv zeta. split; [apply site_of_wf; vm_compute; reflexivity|]. split; [|vm_compute; reflexivity].
+  assert (E : chain_of (site_of example_site) =
+              map snd example_site) by (vm_compute; reflexivity).
+  rewrite E. constructor.
+  - eexists; reflexivity.
+  - exact example_site_writers_rooted.
+  - reflexivity.
+  - intros r0 [<-|[]]. reflexivity.
+  - apply (RdSibling _ _ (bs "/secret/f.txt"%string) (bs ".gz"%string)); [vm_compute; reflexivity|left; reflexivity].
+  - left. reflexivity.
+  - left. reflexivity.
+  - vm_compute. reflexivity.
+  - intros e [<-|[]]. split; [vm_compute; reflexivity|vm_compute; discriminate].
+Qed.
+
+Theorem C03_no_disclosure_chain_archive_refuted :
+  exists cs idx exts s leaf q w f ru res,
+    wf_site s /\ protected_read cs idx exts (chain_of s) q KArchive f ru res /\
+    run cs (chain_of s) leaf q w = touch leaf q w.
+Proof. exact no_disclosure_chain_archive_refuted. Qed.
+Print Assumptions C03_no_disclosure_chain_archive_refuted.
+
+Theorem C03_no_disclosure_chain_index_refuted :
+  exists cs idx exts s leaf q w f ru res,
+    wf_site s /\ protected_read cs idx exts (chain_of s) q KIndex f ru res /\
+    run cs (chain_of s) leaf q w = touch leaf q w.
+Proof. exact no_disclosure_chain_index_refuted. Qed.
+Print Assumptions C03_no_disclosure_chain_index_refuted.
+
+Theorem C03_no_disclosure_chain_sibling_refuted :
+  exists cs idx exts s leaf q w f ru res,
+    wf_site s /\ protected_read cs idx exts (chain_of s) q KSibling f ru res /\
+    run cs (chain_of s) leaf q w = touch leaf q w.
+Proof. exact no_disclosure_chain_sibling_refuted. Qed.
+Print Assumptions C03_no_disclosure_chain_sibling_refuted.
+
+(* nothing broader is excused: the side condition of _partial fails only for an index page, a
+   precompressed sibling or an archive member, and only when the scope ends strictly inside the part
+   of the name the request does not spell (the index file's name, the extension, the descendant) *)
+Theorem C03_scope_within_fails_only_below : forall cs idx exts p k f b,
+  reads idx exts p k f -> under cs f b = true -> scope_within p k b = false ->
+  (k = KSibling \/ k = KIndex \/ k = KIndexSibling \/ k = KArchive) /\
+  (length (vis p k) < length (matcher_form b) <= length f)%nat.
+Proof. exact scope_within_fails_only_below. Qed.
+Print Assumptions C03_scope_within_fails_only_below.
+
+(* internal locations: nothing is run, the answer is 404 (or basicauth's 401 before it) *)
+Theorem C03_no_disclosure_chain_internal_partial : forall cs idx exts (s : site) leaf q w k f pre,
+  wf_site s ->
+  internal_read cs idx exts (chain_of s) q k f pre ->
+  scope_within (final_path (chain_of s) (q_path q)) k pre = true ->
+  o_touched (run cs (chain_of s) leaf q w) = [] /\
+  (o_status (run cs (chain_of s) leaf q w) = 401 \/ o_status (run cs (chain_of s) leaf q w) = 404).
+Proof. exact no_disclosure_chain_internal_partial. Qed.
+Print Assumptions C03_no_disclosure_chain_internal_partial.
+
+Example C03_no_disclosure_chain_internal_nonvacuous :
+  let s := site_of example_site in
+  internal_read false [bs "index.html"%string] [] (map snd example_site)
+                (noauth_q (bs "/x/../INT/"%string)) KIndex (bs "/INT/index.html"%string) (bs "/int"%string) /\
+  chain_of s = map snd example_site /\
+  run false (chain_of s) (fun _ w => w) (noauth_q (bs "/x/../INT/"%string)) [] = deny 404 [].
+Proof.
+  cbv zeta. split; [|vm_compute; auto]. constructor.
+  - eexists; reflexivity.
+  - exact example_site_writers_rooted.
+  - apply (RdIndex _ _ (bs "/x/../INT/"%string) (bs "index.html"%string)); [vm_compute; reflexivity|left; reflexivity].
+  - eexists. split; [vm_compute; reflexivity|left; reflexivity].
+  - vm_compute. reflexivity.
+Qed.
+
+(* with valid credentials for a rule protecting the final path basicauth is transparent: the same
+   request is served as if the directive were absent *)
+Theorem C03_chain_with_credentials : forall cs (s : site) leaf q w ru,
+  wf_site s -> In ru (auth_rules (chain_of s)) ->
+  protects cs (final_path (chain_of s) (q_path q)) ru = true -> r_creds_ok ru = true ->
+  run cs (chain_of s) leaf q w =
+  serve_part cs (chain_of s) leaf (set_path q (final_path (chain_of s) (q_path q))) w.
+Proof. exact chain_with_credentials. Qed.
+Print Assumptions C03_chain_with_credentials.
+
+(* `under` (the scope test on a canonical resource name used above) IS Path.Matches on such a name,
+   and the file the static resolver opens has such a name *)
+Theorem C03_under_is_path_matches : forall cs f b,
+  clean f = f -> ends_with_slash f = false -> path_matches cs f b = under cs f b.
+Proof. exact under_is_path_matches. Qed.
+Print Assumptions C03_under_is_path_matches.
+
+Theorem C03_resolved_canonical : forall p, rooted p -> resolved p <> [SLASH] ->
+  clean (resolved p) = resolved p /\ ends_with_slash (resolved p) = false.
+Proof. exact resolved_canonical. Qed.
+Print Assumptions C03_resolved_canonical.
+
+Example C03_resolved_canonical_nonvacuous :
+  rooted (bs "/pub/..//secret/./f.txt"%string) /\ resolved (bs "/pub/..//secret/./f.txt"%string) <> [SLASH].
+Proof. split; [eexists; reflexivity|vm_compute; discriminate]. Qed.
